@@ -204,4 +204,100 @@ theorem Core.prelude {P : Prims} {V : St → List Val} (hR : Rec P V) {s s1 : St
         · cases hbb
         · cases hbb; rfl
 
+/-! ### marker operators -/
+
+theorem qaOf_items {V : St → List Val} {s : St} {cs : List Nat} (hc : Core V s cs) : qaOf (items V s) = s.regs.qa := by
+  rw [hc.qa, (FInv.fold cs (items V s)).qa]
+
+theorem marker_facts (op : Nat) (e : Elem) (v : Val) :
+    isBit (.marker op e, v) = false ∧ isBitmapOp (.marker op e, v) = false ∧ isOper 237000 (.marker op e, v) = false ∧
+    (∀ q, qaStep q (.marker op e, v) = clsStep q (xOf e.id)) ∧ (∀ q, consumesF q (.marker op e, v) = true) :=
+  ⟨rfl, rfl, rfl, fun _ => rfl, fun _ => rfl⟩
+
+/-- the element stage of a marker operator, after the link has been recorded: with `markersOk` on the result
+    neither an associated field nor a second zero bit is taken -/
+theorem Core.marker_elem {P : Prims} {V : St → List Val} (hR : Rec P V) {s s' : St} {cs : List Nat}
+    (hc : Core V s cs) (hst : Settled s) (op : Nat) (e' : Elem) (owner : Nat) (be : Elem) (rest : List (Nat × Elem))
+    (hb : s.regs.bmIter = some ((owner, be) :: rest))
+    (h : elementDescriptor P (.marker op e') e' (addLink (s.setRegs fun r => { r with bmIter := some rest }) owner) = .ok s')
+    (hok : markersOk (items V s') = true) :
+    Core V s' cs ∧ s'.regs.bitmapDef = s.regs.bitmapDef := by
+  rw [Bufr.C07.elementDescriptor_eq] at h
+  cases h1 : stAssoc P e' (addLink (s.setRegs fun r => { r with bmIter := some rest }) owner) with
+  | error err => simp [h1, bind, Except.bind] at h
+  | ok s3 =>
+    simp only [h1, bind, Except.bind] at h
+    cases h2 : stQa e' s3 with
+    | error err => simp [h2] at h
+    | ok s4 =>
+      simp only [h2] at h
+      obtain ⟨v, hv⟩ := stValue_grow hR _ _ _ _ h
+      obtain ⟨sd, sl, sr⟩ := stValue_ok hR.quiet h
+      obtain ⟨qd, qv⟩ := stQa_shape hR e' s3 s4 h2
+      have hV2 : V (addLink (s.setRegs fun r => { r with bmIter := some rest }) owner) = V s := by
+        rw [hR.addLink, hR.setRegs]
+      obtain ⟨f1, f2, f3, f5, f6⟩ := marker_facts op e' v
+      unfold stAssoc at h1
+      split at h1
+      · -- an associated field in front of the marker: excluded by `markersOk`
+        exfalso
+        obtain ⟨v1, hv1⟩ := hR.codeflag _ _ _ _ h1
+        obtain ⟨ad, _, _⟩ := hR.quiet.codeflag _ _ _ _ h1
+        have hd3 : s3.descs = .assoc e'.id s.regs.assocStack.sum :: s.descs := ad
+        have hv3 : V s3 = V s ++ [v1] := by rw [hv1, hV2]
+        have i3 := items_snoc V s s3 _ v1 hc.len hd3 hv3
+        have l3 : (V s3).length = s3.descs.length := by rw [hv3, hd3]; simp [hc.len]
+        have i' := items_snoc V s3 s' (.marker op e') v l3 (by rw [sd, qd]) (by rw [hv, qv])
+        rw [i3] at i'
+        have hn := items_length V s hc.len
+        have m := markersOk_at _ hok (s.descs.length + 1) op e' v (by
+          rw [i', List.getElem?_append_right (by simp [hn])]
+          simp [hn])
+        refine m.2 s.descs.length e'.id s.regs.assocStack.sum v1 rfl ?_ rfl
+        rw [i', List.getElem?_append_left (by simp [hn]), List.getElem?_append_right (by simp [hn])]
+        simp [hn]
+      · cases h1
+        have i' := items_snoc V s s' (.marker op e') v hc.len (by rw [sd, qd]; rfl) (by rw [hv, qv, hV2])
+        have hn := items_length V s hc.len
+        have qr := stQa_regs e' _ s4 h2
+        have qo := stQa_ok h2
+        rcases qo.2.2 with ⟨t, _⟩ | ⟨t, b1, b2⟩
+        · -- a class 33 target inside a quality-information stretch: excluded by `markersOk`
+          exfalso
+          have m := markersOk_at _ hok s.descs.length op e' v (by
+            rw [i', List.getElem?_append_right (by simp [hn])]
+            simp [hn])
+          apply m.1
+          refine ⟨t.1, ?_⟩
+          rw [inQa_eq, i', List.take_left' hn, qaOf_items hc]
+          have hne : s.regs.qa ≠ .na := t.2
+          cases hq : s.regs.qa with
+          | na => exact absurd hq hne
+          | waiting => rfl
+          | processing => rfl
+        · have e1 : s'.regs.bitmapDef = s.regs.bitmapDef := by rw [sr, qr]; rfl
+          refine ⟨?_, e1⟩
+          refine hc.record (.marker op e') v (by rw [sd, qd]; rfl) (by rw [hv, qv, hV2]) f1 hst.not_counting
+            (by rw [e1]; exact hst.not_counting) (by rw [sr, qr, f5]; rfl) (fun h => by rw [f3] at h; cases h) ?_
+            (by rw [sr, qr]; rfl) (by rw [sr, qr]; rfl) (by rw [sr, qr]; exact hc.quiet) ?_
+          · intro _
+            rw [f6, if_pos rfl]
+            exact ⟨(owner, be), rest, hb, by rw [sl, b1]; rfl, by rw [sr, b2]; rfl⟩
+          · exact phase_ordinary hc _ f1 f2 f3 hst e1 (by rw [sr, qr]; rfl) (by rw [sr, qr]; rfl)
+
+/-- `process_bitmapped_descriptor` -/
+theorem Core.bitmapped {P : Prims} {V : St → List Val} (hR : Rec P V) {s s' : St} {cs : List Nat}
+    (hc : Core V s cs) (hst : Settled s) (op : Nat) (h : bitmappedDescriptor P op s = .ok s')
+    (hok : markersOk (items V s') = true) :
+    Core V s' cs ∧ s'.regs.bitmapDef = s.regs.bitmapDef := by
+  cases hb : s.regs.bmIter with
+  | none => simp [bitmappedDescriptor, nextBitmapped, hb, bind, Except.bind] at h
+  | some l =>
+    cases l with
+    | nil => simp [bitmappedDescriptor, nextBitmapped, hb, bind, Except.bind] at h
+    | cons x rest =>
+      obtain ⟨owner, be⟩ := x
+      simp only [bitmappedDescriptor, nextBitmapped, hb, bind, Except.bind] at h
+      exact hc.marker_elem hR hst op _ owner be rest hb h hok
+
 end Bufr.C07
